@@ -63,7 +63,13 @@ def cases(tier, seed):
         for segs in itertools.product(range(len(SEGS) if n < 3 else NBASE), repeat=n):
             out.append({'segs': list(segs)})
     # chunk to keep messages small
-    return [{'k': 'chunk', 'items': out[i:i + 40]} for i in range(0, len(out), 40)]
+    extra = []
+    for t in range(len(BROKEN)):
+        for mode in ('no_collect', 'collect'):
+            extra.append({'k': 'broken', 't': t, 'mode': mode})
+    for mode in ('no_collect', 'collect'):
+        extra.append({'k': 'falsy-logger', 'mode': mode})
+    return [{'k': 'chunk', 'items': out[i:i + 40]} for i in range(0, len(out), 40)] + extra
 
 
 _PROG = None
@@ -120,11 +126,74 @@ def matches(msg, parts):
 
 
 def run_case(ctx, desc):
+    if desc.get('k') == 'broken':
+        return broken(ctx, desc)
+    if desc.get('k') == 'falsy-logger':
+        return falsy_logger(ctx, desc)
     items = desc['items'] if desc.get('k') == 'chunk' else [desc]
     for it in items:
         for fi in range(3):
             for mode in ('no_collect', 'collect'):
                 one(ctx, it['segs'], fi, mode)
+
+
+BROKEN = ['{name} {obj.attr', '{name}}', '{{"u": "{name}", "n": {len(lst)}}', "{d.setdefault('seen', 1)} {", "}{name}", "{name} } {s}"]
+
+
+def broken(ctx, desc):
+    """A template that cannot be taken apart is logged as it is (a documented choice). Then none of its fields is evaluated - an
+    expression with an effect on the application must not run for a message that does not show it - and none is recorded as a watch."""
+    from deep.api.tracepoint.trigger import build_trigger
+    ns, path = prog()
+    template, mode = BROKEN[desc['t']], desc['mode']
+    agent = rig.Agent()
+    args = {'log_msg': template, 'fire_count': '1', 'fire_period': '0'}
+    if mode == 'no_collect':
+        args['snapshot'] = 'no_collect'
+    agent.install([build_trigger('tp-log', 'c16prog.py', LINE, args, [], [])])
+    fr = frames(ns)[0]
+    with rig.VirtualClock():
+        run = Forwarder({path}, agent.handler, lambda ev, f: None).call(ns['target'], fr['name'], fr['obj'], fr['lst'], fr['d'], fr['s'], fr['bad'], 2)
+    ctx.case()
+    ctx.nt(('broken', desc['t'], mode))
+    logs = agent.events('log')
+    ctx.outcome(('broken', len(logs)))
+    if run.escaped or run.exc is not None:
+        ctx.violation('C16/handler-raised', f'template {template!r}: {run.escaped[:1] or run.exc!r}', desc)
+    elif len(logs) != 1 or logs[0][2] != '[deep] ' + template:
+        ctx.violation('C16/broken-template/message', f'template {template!r} (cannot be taken apart): emitted {[l[2] for l in logs]!r}, want the template as it is, once', desc)
+    elif 'seen' in fr['d']:
+        ctx.violation('C16/broken-template/field-evaluated', f'template {template!r} is logged unformatted, yet its field was evaluated in the application: d = {fr["d"]!r}', desc)
+    elif mode == 'collect' and (len(agent.snapshots) != 1 or [w.expression for w in agent.snapshots[0].watches if w.source == 'LOG']):
+        got = [w.expression for s_ in agent.snapshots for w in s_.watches if w.source == 'LOG']
+        ctx.violation('C16/broken-template/watches-recorded', f'template {template!r} is logged unformatted ({len(agent.snapshots)} snapshots), the snapshot records field results {got}', desc)
+
+
+def falsy_logger(ctx, desc):
+    """The configured tracepoint logger is an object that happens to be falsy (a buffering logger with __len__, empty so far)."""
+    from deep.api.tracepoint.trigger import build_trigger
+    ns, path = prog()
+    j = rig.Journal()
+
+    class Buffering(rig.RecLogger):
+        def __len__(self):
+            return 0
+    agent = rig.Agent(plugins=[Buffering(j)], journal=j)
+    args = {'log_msg': 'n={name}', 'fire_count': '1', 'fire_period': '0'}
+    if desc['mode'] == 'no_collect':
+        args['snapshot'] = 'no_collect'
+    agent.install([build_trigger('tp-log', 'c16prog.py', LINE, args, [], [])])
+    fr = frames(ns)[0]
+    with rig.VirtualClock():
+        run = Forwarder({path}, agent.handler, lambda ev, f: None).call(ns['target'], fr['name'], fr['obj'], fr['lst'], fr['d'], fr['s'], fr['bad'], 2)
+    ctx.case()
+    ctx.nt(('falsy-logger', desc['mode']))
+    logs = agent.events('log')
+    ctx.outcome(('falsy-logger', len(logs)))
+    if run.escaped or run.exc is not None:
+        ctx.violation('C16/handler-raised', f'{run.escaped[:1] or run.exc!r}', desc)
+    elif [l[2] for l in logs] != ['[deep] n=bob']:
+        ctx.violation('C16/falsy-logger-not-called', f'the configured tracepoint logger is falsy (len() == 0): it received {[l[2] for l in logs]!r}, want [\'[deep] n=bob\']', desc)
 
 
 def one(ctx, segs, fi, mode):
